@@ -216,38 +216,38 @@ package cose
 
 //@ func NewSigner
 //@   requires valid: key != nil && validPub(crypto_public(key)) && (key is *ecdsa.PrivateKey ==> key.(*ecdsa.PrivateKey) != nil)
-//@   ensures iff [C06, C17]: err == nil <==> ((isPS(alg) && crypto_public(key) is *rsa.PublicKey && bitlen(abs(bigval(crypto_public(key).(*rsa.PublicKey).N))) >= 2048)
+//@   ensures iff [C06, C14, C17]: err == nil <==> ((isPS(alg) && crypto_public(key) is *rsa.PublicKey && bitlen(abs(bigval(crypto_public(key).(*rsa.PublicKey).N))) >= 2048)
 //@       || (isES(alg) && crypto_public(key) is *ecdsa.PublicKey)
 //@       || (alg == -8 && crypto_public(key) is ed25519.PublicKey))
-//@   ensures alg_reported [C06, C17]: err == nil ==> result != nil
+//@   ensures alg_reported [C06, C14, C17]: err == nil ==> result != nil
 //@       && (isPS(alg) ==> result is *rsaSigner && result.(*rsaSigner) != nil && result.(*rsaSigner).alg == alg && result.(*rsaSigner).key == key)
 //@       && (isES(alg) && key is *ecdsa.PrivateKey ==> result is *ecdsaKeySigner && result.(*ecdsaKeySigner) != nil && result.(*ecdsaKeySigner).alg == alg && result.(*ecdsaKeySigner).key == key.(*ecdsa.PrivateKey))
 //@       && (isES(alg) && !(key is *ecdsa.PrivateKey) ==> result is *ecdsaCryptoSigner && result.(*ecdsaCryptoSigner) != nil && result.(*ecdsaCryptoSigner).alg == alg
 //@             && result.(*ecdsaCryptoSigner).key == crypto_public(key).(*ecdsa.PublicKey) && result.(*ecdsaCryptoSigner).signer == key)
 //@       && (alg == -8 ==> result is *ed25519Signer && result.(*ed25519Signer) != nil && result.(*ed25519Signer).key == key)
-//@   ensures errors [C06, C17]: err != nil ==> result == nil
+//@   ensures errors [C06, C14, C17]: err != nil ==> result == nil
 //@       && ((alg == 0 || isRS(alg) || !(isPS(alg) || isES(alg) || alg == -8)) ==> Is(err, ErrAlgorithmNotSupported))
 //@       && (isPS(alg) && !(crypto_public(key) is *rsa.PublicKey) ==> Is(err, ErrInvalidPubKey))
 //@       && (isES(alg) && !(crypto_public(key) is *ecdsa.PublicKey) ==> Is(err, ErrInvalidPubKey))
 //@       && (alg == -8 && !(crypto_public(key) is ed25519.PublicKey) ==> Is(err, ErrInvalidPubKey))
-//@   modifies frame [C06, C18]: nothing
+//@   modifies frame [C06, C14, C18]: nothing
 
 //@ func NewVerifier
 //@   requires valid: validPub(key)
-//@   ensures iff [C06, C17]: err == nil <==> ((isPS(alg) && key is *rsa.PublicKey && bitlen(abs(bigval(key.(*rsa.PublicKey).N))) >= 2048)
+//@   ensures iff [C06, C14, C17]: err == nil <==> ((isPS(alg) && key is *rsa.PublicKey && bitlen(abs(bigval(key.(*rsa.PublicKey).N))) >= 2048)
 //@       || (isES(alg) && key is *ecdsa.PublicKey && ecdh_err(ecpub(key.(*ecdsa.PublicKey))) == nil)
 //@       || (alg == -8 && key is ed25519.PublicKey))
-//@   ensures alg_reported [C06, C17]: err == nil ==> result != nil
+//@   ensures alg_reported [C06, C14, C17]: err == nil ==> result != nil
 //@       && (isPS(alg) ==> result is *rsaVerifier && result.(*rsaVerifier) != nil && result.(*rsaVerifier).alg == alg && result.(*rsaVerifier).key == key.(*rsa.PublicKey))
 //@       && (isES(alg) ==> result is *ecdsaVerifier && result.(*ecdsaVerifier) != nil && result.(*ecdsaVerifier).alg == alg && result.(*ecdsaVerifier).key == key.(*ecdsa.PublicKey))
 //@       && (alg == -8 ==> result is *ed25519Verifier && result.(*ed25519Verifier) != nil && result.(*ed25519Verifier).key == key.(ed25519.PublicKey))
-//@   ensures errors [C06, C17]: err != nil ==> result == nil
+//@   ensures errors [C06, C14, C17]: err != nil ==> result == nil
 //@       && ((alg == 0 || isRS(alg) || !(isPS(alg) || isES(alg) || alg == -8)) ==> Is(err, ErrAlgorithmNotSupported))
 //@       && (isPS(alg) && !(key is *rsa.PublicKey) ==> Is(err, ErrInvalidPubKey))
 //@       && (isES(alg) && !(key is *ecdsa.PublicKey) ==> Is(err, ErrInvalidPubKey))
 //@       && (isES(alg) && key is *ecdsa.PublicKey && ecdh_err(ecpub(key.(*ecdsa.PublicKey))) != nil ==> Is(err, ErrInvalidPubKey))
 //@       && (alg == -8 && !(key is ed25519.PublicKey) ==> Is(err, ErrInvalidPubKey))
-//@   modifies frame [C06, C18]: nothing
+//@   modifies frame [C06, C14, C18]: nothing
 
 // ===================================================================
 // cbor.go  (C02, C05, C06, C07)
@@ -273,14 +273,14 @@ package cose
 //@ spec UnprotBytes(h Headers) Bytes = len(h.RawUnprotected) > 0 ? bytes(h.RawUnprotected) : (len(h.Unprotected) == 0 ? byte1(160) : enc(cvof(asmap(h.Unprotected))))
 
 //@ func (ProtectedHeader).MarshalCBOR
-//@   ensures fun [C02, C04, C08, C09, C10]: err == nil ==> bytes(result) == enc(cv_bstr(protContent(h))) && fresh(result) && len(result) > 0
+//@   ensures fun [C02, C04, C08, C09, C10, C13]: err == nil ==> bytes(result) == enc(cv_bstr(protContent(h))) && fresh(result) && len(result) > 0
 //@   ensures err_nil: err != nil ==> result == nil
-//@   modifies frame [C18]: nothing
+//@   modifies frame [C13, C18]: nothing
 
 //@ func (UnprotectedHeader).MarshalCBOR
-//@   ensures fun [C08, C09]: err == nil ==> bytes(result) == (len(h) == 0 ? byte1(160) : enc(cvof(asmap(h)))) && fresh(result) && len(result) > 0
+//@   ensures fun [C08, C09, C13]: err == nil ==> bytes(result) == (len(h) == 0 ? byte1(160) : enc(cvof(asmap(h)))) && fresh(result) && len(result) > 0
 //@   ensures err_nil: err != nil ==> result == nil
-//@   modifies frame [C18]: nothing
+//@   modifies frame [C13, C18]: nothing
 
 //@ func (*Headers).MarshalProtected
 //@   requires nonnil: h != nil
@@ -386,16 +386,16 @@ package cose
 
 //@ func (*Sign1Message).Verify
 //@   requires verifier_nonnil: verifier != nil
-//@   ensures once [C03, C04, C06, C20]: vepoch() == old(vepoch()) || vepoch() == old(vepoch()) + 1
-//@   ensures sound [C03, C06, C20]: result == nil ==> m != nil && m.Payload != nil && len(m.Signature) > 0 && vepoch() == old(vepoch()) + 1
-//@   ensures verbatim [C02, C03, C06, C20]: vepoch() == old(vepoch()) + 1 ==> m != nil
+//@   ensures once [C01, C03, C04, C06, C20]: vepoch() == old(vepoch()) || vepoch() == old(vepoch()) + 1
+//@   ensures sound [C01, C03, C06, C20]: result == nil ==> m != nil && m.Payload != nil && len(m.Signature) > 0 && vepoch() == old(vepoch()) + 1
+//@   ensures verbatim [C01, C02, C03, C06, C20]: vepoch() == old(vepoch()) + 1 ==> m != nil
 //@         && result == verifier_verify(verifier, old(Sig1(ProtBytes(m.Headers), external, m.Payload)), old(bytes(m.Signature)))
-//@   ensures gate [C04, C06]: m != nil && vepoch() != old(vepoch())
+//@   ensures gate [C01, C04, C06]: m != nil && vepoch() != old(vepoch())
 //@         ==> (algPresent(m.Headers.Protected) ==> algAgrees(m.Headers.Protected, verifier_alg(verifier))) && (algPresent(m.Headers.Protected) || len(external) > 0)
-//@   ensures mismatch [C04, C06]: m != nil && m.Payload != nil && len(m.Signature) > 0 && uniqueLabels(asmap(m.Headers.Protected)) && algIntMismatch(m.Headers.Protected, verifier_alg(verifier))
+//@   ensures mismatch [C01, C04, C06]: m != nil && m.Payload != nil && len(m.Signature) > 0 && uniqueLabels(asmap(m.Headers.Protected)) && algIntMismatch(m.Headers.Protected, verifier_alg(verifier))
 //@         ==> result != nil && Is(result, ErrAlgorithmMismatch)
-//@   ensures precheck [C03, C06]: (m == nil || m.Payload == nil || len(m.Signature) == 0) ==> result != nil && vepoch() == old(vepoch())
-//@   modifies frame [C06, C18]: nothing
+//@   ensures precheck [C01, C03, C06]: (m == nil || m.Payload == nil || len(m.Signature) == 0) ==> result != nil && vepoch() == old(vepoch())
+//@   modifies frame [C01, C06, C18]: nothing
 
 //@ func (*Sign1Message).Sign
 //@   requires signer_nonnil: signer != nil
@@ -422,16 +422,16 @@ package cose
 
 //@ func (*Signature).Verify
 //@   requires verifier_nonnil: verifier != nil
-//@   ensures once [C03, C04, C11, C20]: vepoch() == old(vepoch()) || vepoch() == old(vepoch()) + 1
-//@   ensures sound [C03, C11, C20]: result == nil ==> s != nil && payload != nil && len(s.Signature) > 0 && bodyOK(protected) && vepoch() == old(vepoch()) + 1
-//@   ensures verbatim [C02, C03, C11, C20]: vepoch() == old(vepoch()) + 1 ==> s != nil
+//@   ensures once [C01, C03, C04, C11, C20]: vepoch() == old(vepoch()) || vepoch() == old(vepoch()) + 1
+//@   ensures sound [C01, C03, C11, C20]: result == nil ==> s != nil && payload != nil && len(s.Signature) > 0 && bodyOK(protected) && vepoch() == old(vepoch()) + 1
+//@   ensures verbatim [C01, C02, C03, C11, C20]: vepoch() == old(vepoch()) + 1 ==> s != nil
 //@         && result == verifier_verify(verifier, old(SigN(bytes(protected), ProtBytes(s.Headers), external, payload)), old(bytes(s.Signature)))
-//@   ensures gate [C04]: s != nil && vepoch() != old(vepoch())
+//@   ensures gate [C01, C04]: s != nil && vepoch() != old(vepoch())
 //@         ==> (algPresent(s.Headers.Protected) ==> algAgrees(s.Headers.Protected, verifier_alg(verifier))) && (algPresent(s.Headers.Protected) || len(external) > 0)
-//@   ensures mismatch [C04]: s != nil && payload != nil && len(s.Signature) > 0 && bodyOK(protected) && uniqueLabels(asmap(s.Headers.Protected)) && algIntMismatch(s.Headers.Protected, verifier_alg(verifier))
+//@   ensures mismatch [C01, C04]: s != nil && payload != nil && len(s.Signature) > 0 && bodyOK(protected) && uniqueLabels(asmap(s.Headers.Protected)) && algIntMismatch(s.Headers.Protected, verifier_alg(verifier))
 //@         ==> result != nil && Is(result, ErrAlgorithmMismatch)
-//@   ensures precheck [C03, C11]: (s == nil || payload == nil || len(s.Signature) == 0 || !bodyOK(protected)) ==> result != nil && vepoch() == old(vepoch())
-//@   modifies frame [C18]: nothing
+//@   ensures precheck [C01, C03, C11]: (s == nil || payload == nil || len(s.Signature) == 0 || !bodyOK(protected)) ==> result != nil && vepoch() == old(vepoch())
+//@   modifies frame [C01, C18]: nothing
 
 //@ func (*Signature).Sign
 //@   requires signer_nonnil: signer != nil
@@ -460,34 +460,34 @@ package cose
 
 //@ func (*SignMessage).Verify
 //@   requires verifiers_nonnil: forall i Int :: 0 <= i && i < len(verifiers) ==> verifiers[i] != nil
-//@   ensures sound [C03, C06, C11, C20]: result == nil ==> m != nil && m.Payload != nil && len(m.Signatures) > 0 && len(m.Signatures) == len(verifiers)
+//@   ensures sound [C01, C02, C03, C04, C06, C11, C20]: result == nil ==> m != nil && m.Payload != nil && len(m.Signatures) > 0 && len(m.Signatures) == len(verifiers)
 //@         && vepoch() == old(vepoch()) + len(m.Signatures)
 //@         && (forall i Int :: 0 <= i && i < len(m.Signatures) ==> sigVerified(m, i, verifiers[i], external))
-//@   ensures count [C06, C11]: m != nil && len(m.Signatures) != len(verifiers) ==> result != nil && vepoch() == old(vepoch())
-//@   ensures precheck [C06, C11]: (m == nil || m.Payload == nil || len(m.Signatures) == 0) ==> result != nil && vepoch() == old(vepoch())
-//@   modifies frame [C06, C18]: nothing
-//@   loop 1 invariant bounds [C06, C11]: 0 <= idx && idx <= len(m.Signatures) && len(m.Signatures) == len(verifiers) && m.Payload != nil
-//@   loop 1 invariant counted [C06, C11]: vepoch() == old(vepoch()) + idx
-//@   loop 1 invariant prefix_ok [C06, C11]: forall j Int :: 0 <= j && j < idx ==> sigVerified(m, j, verifiers[j], external)
-//@   callsite positional [C06, C11] (*Signature).Verify#1: arg0 == m.Signatures[idx] && arg1 == verifiers[idx] && arg3 == m.Payload && arg4 == external && bytes(arg2) == ProtBytes(m.Headers)
+//@   ensures count [C01, C02, C04, C06, C11]: m != nil && len(m.Signatures) != len(verifiers) ==> result != nil && vepoch() == old(vepoch())
+//@   ensures precheck [C01, C02, C04, C06, C11]: (m == nil || m.Payload == nil || len(m.Signatures) == 0) ==> result != nil && vepoch() == old(vepoch())
+//@   modifies frame [C01, C02, C04, C06, C18]: nothing
+//@   loop 1 invariant bounds [C01, C02, C04, C06, C11]: 0 <= idx && idx <= len(m.Signatures) && len(m.Signatures) == len(verifiers) && m.Payload != nil
+//@   loop 1 invariant counted [C01, C02, C04, C06, C11]: vepoch() == old(vepoch()) + idx
+//@   loop 1 invariant prefix_ok [C01, C02, C04, C06, C11]: forall j Int :: 0 <= j && j < idx ==> sigVerified(m, j, verifiers[j], external)
+//@   callsite positional [C01, C02, C04, C06, C11] (*Signature).Verify#1: arg0 == m.Signatures[idx] && arg1 == verifiers[idx] && arg3 == m.Payload && arg4 == external && bytes(arg2) == ProtBytes(m.Headers)
 
 //@ func (*SignMessage).Sign
 //@   requires signers_nonnil: forall i Int :: 0 <= i && i < len(signers) ==> signers[i] != nil
 //@   requires distinct_slots: m != nil ==> (forall i Int, j Int :: 0 <= i && i < j && j < len(m.Signatures) ==> m.Signatures[i] != m.Signatures[j])
-//@   ensures all_or_error [C06, C11, C20]: err == nil ==> m != nil && m.Payload != nil && len(m.Signatures) > 0 && len(m.Signatures) == len(signers)
+//@   ensures all_or_error [C01, C04, C06, C11, C20]: err == nil ==> m != nil && m.Payload != nil && len(m.Signatures) > 0 && len(m.Signatures) == len(signers)
 //@         && epoch() == old(epoch()) + len(m.Signatures)
-//@   ensures count [C06, C11]: m != nil && len(m.Signatures) != len(signers) ==> err != nil && epoch() == old(epoch())
-//@   ensures precheck [C06, C11, C20]: (m == nil || m.Payload == nil || len(m.Signatures) == 0) ==> err != nil && epoch() == old(epoch())
-//@   ensures shape_kept [C06, C11, C20]: m != nil ==> m.Signatures == old(m.Signatures) && m.Payload == old(m.Payload)
-//@   loop 1 invariant bounds [C06, C11, C20]: 0 <= idx && idx <= len(m.Signatures) && len(m.Signatures) == len(signers) && m.Payload != nil
+//@   ensures count [C01, C04, C06, C11]: m != nil && len(m.Signatures) != len(signers) ==> err != nil && epoch() == old(epoch())
+//@   ensures precheck [C01, C04, C06, C11, C20]: (m == nil || m.Payload == nil || len(m.Signatures) == 0) ==> err != nil && epoch() == old(epoch())
+//@   ensures shape_kept [C01, C04, C06, C11, C20]: m != nil ==> m.Signatures == old(m.Signatures) && m.Payload == old(m.Payload)
+//@   loop 1 invariant bounds [C01, C04, C06, C11, C20]: 0 <= idx && idx <= len(m.Signatures) && len(m.Signatures) == len(signers) && m.Payload != nil
 //@         && m.Signatures == old(m.Signatures) && m.Payload == old(m.Payload)
-//@   loop 1 invariant counted [C06, C11, C20]: epoch() == old(epoch()) + idx
-//@   loop 1 invariant later_untouched [C06, C11, C20]: forall j Int :: idx <= j && j < len(m.Signatures) && m.Signatures[j] != nil ==> m.Signatures[j].Signature == old(m.Signatures[j].Signature)
-//@   ensures err_slots [C06, C11, C20]: m != nil && err != nil ==> epoch() - old(epoch()) <= len(m.Signatures)
+//@   loop 1 invariant counted [C01, C04, C06, C11, C20]: epoch() == old(epoch()) + idx
+//@   loop 1 invariant later_untouched [C01, C04, C06, C11, C20]: forall j Int :: idx <= j && j < len(m.Signatures) && m.Signatures[j] != nil ==> m.Signatures[j].Signature == old(m.Signatures[j].Signature)
+//@   ensures err_slots [C01, C04, C06, C11, C20]: m != nil && err != nil ==> epoch() - old(epoch()) <= len(m.Signatures)
 //@         && (forall j Int :: epoch() - old(epoch()) <= j && j < len(m.Signatures) && m.Signatures[j] != nil ==> m.Signatures[j].Signature == old(m.Signatures[j].Signature))
-//@   callsite positional [C06, C11] (*Signature).Sign#1: arg0 == m.Signatures[idx] && arg2 == signers[idx] && arg4 == m.Payload && arg5 == external && arg3 == protected
-//@   callsite body_protected [C02, C06, C11] (*Headers).MarshalProtected#1: arg0 == &m.Headers
-//@   modifies frame [C06, C18]: anything
+//@   callsite positional [C01, C04, C06, C11] (*Signature).Sign#1: arg0 == m.Signatures[idx] && arg2 == signers[idx] && arg4 == m.Payload && arg5 == external && arg3 == protected
+//@   callsite body_protected [C01, C02, C04, C06, C11] (*Headers).MarshalProtected#1: arg0 == &m.Headers
+//@   modifies frame [C01, C04, C06, C18]: anything
 
 // ===================================================================
 // headers.go: cross-bucket IV rule, marshal  (C13, C08, C09)
@@ -524,16 +524,16 @@ package cose
 //@   modifies frame [C18]: nothing
 
 //@ func (*Sign1Message).MarshalCBOR
-//@   ensures fun [C08, C09]: err == nil ==> m != nil && bytes(result) == enc(cv_tag(18, Sign1Array(m.Headers, m.Payload, m.Signature))) && fresh(result) && len(result) > 0
-//@   ensures refuses_empty [C20]: err == nil ==> m != nil && len(m.Signature) > 0
-//@   ensures err_nil [C20]: err != nil ==> result == nil
-//@   modifies frame [C18]: nothing
+//@   ensures fun [C01, C08, C09]: err == nil ==> m != nil && bytes(result) == enc(cv_tag(18, Sign1Array(m.Headers, m.Payload, m.Signature))) && fresh(result) && len(result) > 0
+//@   ensures refuses_empty [C01, C20]: err == nil ==> m != nil && len(m.Signature) > 0
+//@   ensures err_nil [C01, C20]: err != nil ==> result == nil
+//@   modifies frame [C01, C18]: nothing
 
 //@ func (*UntaggedSign1Message).MarshalCBOR
-//@   ensures fun [C08, C09]: err == nil ==> m != nil && bytes(result) == enc(Sign1Array(m.Headers, m.Payload, m.Signature)) && fresh(result) && len(result) > 0
-//@   ensures refuses_empty [C20]: err == nil ==> m != nil && len(m.Signature) > 0
-//@   ensures err_nil [C20]: err != nil ==> result == nil
-//@   modifies frame [C18]: nothing
+//@   ensures fun [C01, C08, C09]: err == nil ==> m != nil && bytes(result) == enc(Sign1Array(m.Headers, m.Payload, m.Signature)) && fresh(result) && len(result) > 0
+//@   ensures refuses_empty [C01, C20]: err == nil ==> m != nil && len(m.Signature) > 0
+//@   ensures err_nil [C01, C20]: err != nil ==> result == nil
+//@   modifies frame [C01, C18]: nothing
 
 // ===================================================================
 // headers.go: label normalisation and lookup (C04, C08, C12, C13)
@@ -544,21 +544,21 @@ package cose
 //@   ensures int_norm: isIntKey(label) && labelOK(label) ==> result0 is int64 && result0.(int64) == intOf(label)
 //@   ensures str_norm: label is string ==> result0 == label
 //@   ensures bad_nil: !result1 ==> result0 == nil
-//@   modifies frame [C06, C18]: nothing
+//@   modifies frame [C06, C08, C13, C18]: nothing
 
 //@ func lookupLabel
 //@   ensures iff: result1 <==> has(h, label)
 //@   ensures value: result1 ==> exists k any :: k in h && isIntKey(k) && intOf(k) == label && result0 == h[k]
 //@   ensures exact_first: int64(label) in h ==> result0 == h[int64(label)]
 //@   ensures absent_nil: !result1 ==> result0 == nil
-//@   modifies frame [C06, C18]: nothing
+//@   modifies frame [C06, C08, C13, C18]: nothing
 //@   loop 1 invariant none_yet: !(int64(label) in h) && (forall k any :: k in seen ==> !(isIntKey(k) && intOf(k) == label))
 
 //@ func hasLabel
 //@   requires hashable: any_hashable(label)
 //@   ensures int_iff: isIntKey(label) && labelOK(label) ==> (result <==> has(h, intOf(label)))
 //@   ensures other_iff: !(isIntKey(label) && labelOK(label)) ==> (result <==> label in h)
-//@   modifies frame [C06, C18]: nothing
+//@   modifies frame [C06, C08, C13, C18]: nothing
 
 // ===================================================================
 // headers.go: RFC 9052 section 3.1 rules (C13, C05, C07, C08)
@@ -654,9 +654,9 @@ package cose
 //@   modifies frame [C18]: nothing
 
 //@ func unmarshalAsCountersignature
-//@   ensures kinds [C05, C13]: err == nil ==> (result is *Countersignature && result.(*Countersignature) != nil && fresh(result.(*Countersignature))) || result is []*Countersignature
+//@   ensures kinds [C05, C10, C13]: err == nil ==> (result is *Countersignature && result.(*Countersignature) != nil && fresh(result.(*Countersignature))) || result is []*Countersignature
 //@   ensures err_nil: err != nil ==> result == nil
-//@   modifies frame [C18]: nothing
+//@   modifies frame [C10, C18]: nothing
 
 //@ func unmarshalUnprotected
 //@   ensures kinds [C05, C13]: err == nil ==> (result is *Countersignature && result.(*Countersignature) != nil) || result is []*Countersignature || dec_val_ok(result)
@@ -679,10 +679,10 @@ package cose
 //@   modifies frame [C06, C18, C19]: h.Protected, h.Unprotected
 
 //@ func (*Signature).UnmarshalCBOR
-//@   ensures accept [C05, C09]: err == nil ==> sigDecoded(bytes(data), s)
-//@   ensures no_alias [C19]: err == nil ==> fresh(s.Headers.RawProtected) && fresh(s.Headers.RawUnprotected) && fresh(s.Signature) && fresh(s.Headers.Protected) && fresh(s.Headers.Unprotected)
-//@   ensures err_frame [C19]: err != nil && s != nil ==> *s == old(*s)
-//@   modifies frame [C18, C19]: *s
+//@   ensures accept [C01, C05, C09]: err == nil ==> sigDecoded(bytes(data), s)
+//@   ensures no_alias [C01, C19]: err == nil ==> fresh(s.Headers.RawProtected) && fresh(s.Headers.RawUnprotected) && fresh(s.Signature) && fresh(s.Headers.Protected) && fresh(s.Headers.Unprotected)
+//@   ensures err_frame [C01, C19]: err != nil && s != nil ==> *s == old(*s)
+//@   modifies frame [C01, C18, C19]: *s
 
 // b is a COSE_Sign1 4-array (without tag) accepted by the library in the tags-forbidden mode, and m is what the decoder made of it
 //@ spec sign1Decoded(b Bytes, m *Sign1Message) Bool = m != nil && bat(b, 0) == 132
@@ -703,15 +703,15 @@ package cose
 //@   modifies frame [C06, C18, C19]: *m
 
 //@ func (*Sign1Message).UnmarshalCBOR
-//@   ensures accept [C05, C06, C09]: err == nil ==> m != nil && len(data) >= 2 && bat(bytes(data), 0) == 210 && sign1Decoded(bytes(data[1:]), m)
-//@   ensures no_alias [C06, C19]: err == nil ==> sign1Fresh(m)
-//@   ensures err_frame [C06, C19]: err != nil && m != nil ==> *m == old(*m)
-//@   modifies frame [C06, C18, C19]: *m
+//@   ensures accept [C01, C05, C06, C09]: err == nil ==> m != nil && len(data) >= 2 && bat(bytes(data), 0) == 210 && sign1Decoded(bytes(data[1:]), m)
+//@   ensures no_alias [C01, C06, C19]: err == nil ==> sign1Fresh(m)
+//@   ensures err_frame [C01, C06, C19]: err != nil && m != nil ==> *m == old(*m)
+//@   modifies frame [C01, C06, C18, C19]: *m
 
 //@ func (*UntaggedSign1Message).UnmarshalCBOR
-//@   ensures accept [C05, C09]: err == nil ==> m != nil && sign1Decoded(bytes(data), m)
-//@   ensures err_frame [C19]: err != nil && m != nil ==> *m == old(*m)
-//@   modifies frame [C18, C19]: *m
+//@   ensures accept [C01, C05, C09]: err == nil ==> m != nil && sign1Decoded(bytes(data), m)
+//@   ensures err_frame [C01, C19]: err != nil && m != nil ==> *m == old(*m)
+//@   modifies frame [C01, C18, C19]: *m
 
 //@ func (*Countersignature).UnmarshalCBOR
 //@   ensures accept [C05, C09]: err == nil ==> sigDecoded(bytes(data), s)
@@ -745,11 +745,11 @@ package cose
 //@ spec SigArray(h Headers, sig []byte) CV = arr(cv_raw(ProtBytes(h)), cv_raw(UnprotBytes(h)), cv_bstr(bytes(sig)))
 
 //@ func (*Signature).MarshalCBOR
-//@   ensures fun [C08, C09]: err == nil ==> s != nil && bytes(result) == enc(SigArray(s.Headers, s.Signature)) && fresh(result) && len(result) > 0
-//@   ensures refuses_empty [C11, C20]: err == nil ==> s != nil && len(s.Signature) > 0
-//@   ensures cross [C13]: err == nil ==> CrossIV(s.Headers.Protected, s.Headers.Unprotected)
-//@   ensures err_nil [C20]: err != nil ==> result == nil
-//@   modifies frame [C18]: nothing
+//@   ensures fun [C01, C08, C09]: err == nil ==> s != nil && bytes(result) == enc(SigArray(s.Headers, s.Signature)) && fresh(result) && len(result) > 0
+//@   ensures refuses_empty [C01, C11, C20]: err == nil ==> s != nil && len(s.Signature) > 0
+//@   ensures cross [C01, C13]: err == nil ==> CrossIV(s.Headers.Protected, s.Headers.Unprotected)
+//@   ensures err_nil [C01, C20]: err != nil ==> result == nil
+//@   modifies frame [C01, C18]: nothing
 
 //@ func (*Countersignature).MarshalCBOR
 //@   ensures fun [C08, C09]: err == nil ==> s != nil && bytes(result) == enc(SigArray(s.Headers, s.Signature)) && fresh(result) && len(result) > 0
@@ -758,28 +758,28 @@ package cose
 //@   modifies frame [C18]: nothing
 
 //@ func (*SignMessage).MarshalCBOR
-//@   ensures nonempty [C11, C20]: err == nil ==> m != nil && len(m.Signatures) > 0
+//@   ensures nonempty [C01, C11, C20]: err == nil ==> m != nil && len(m.Signatures) > 0
 //@         && (forall i Int :: 0 <= i && i < len(m.Signatures) ==> m.Signatures[i] != nil && len(m.Signatures[i].Signature) > 0)
-//@   ensures err_nil [C20]: err != nil ==> result == nil
-//@   ensures out [C08]: err == nil ==> fresh(result) && len(result) > 0
-//@   modifies frame [C18]: nothing
+//@   ensures err_nil [C01, C20]: err != nil ==> result == nil
+//@   ensures out [C01, C08]: err == nil ==> fresh(result) && len(result) > 0
+//@   modifies frame [C01, C18]: nothing
 //@   loop 1 invariant bounds: 0 <= idx && idx <= len(m.Signatures) && len(signatures) == idx && cap(signatures) >= len(m.Signatures) && fresh(signatures)
-//@   loop 1 invariant prefix_nonempty [C11, C20]: forall j Int :: 0 <= j && j < idx ==> m.Signatures[j] != nil && len(m.Signatures[j].Signature) > 0
+//@   loop 1 invariant prefix_nonempty [C01, C11, C20]: forall j Int :: 0 <= j && j < idx ==> m.Signatures[j] != nil && len(m.Signatures[j].Signature) > 0
 
 //@ func (*SignMessage).UnmarshalCBOR
-//@   ensures accept [C05, C09, C11]: err == nil ==> m != nil && len(data) >= 3 && bat(bytes(data), 0) == 216 && bat(bytes(data), 1) == 98 && bat(bytes(data), 2) == 132
+//@   ensures accept [C01, C05, C09, C11]: err == nil ==> m != nil && len(data) >= 3 && bat(bytes(data), 0) == 216 && bat(bytes(data), 1) == 98 && bat(bytes(data), 2) == 132
 //@         && dec_shape_err(decModeWithTagsForbidden, bytes(data[2:]), "github.com/veraison/go-cose.signMessage") == nil
 //@         && bytes(m.Headers.RawProtected) == dec_elem(bytes(data[2:]), 0) && bytes(m.Headers.RawUnprotected) == dec_elem(bytes(data[2:]), 1)
 //@         && headersDecoded(m.Headers)
 //@         && len(m.Signatures) > 0 && len(m.Signatures) == dec_count(bytes(data[2:]), 3)
-//@   ensures sigs [C05, C09, C11]: err == nil ==> (forall i Int :: 0 <= i && i < len(m.Signatures) ==> m.Signatures[i] != nil && len(m.Signatures[i].Signature) > 0 && fresh(m.Signatures[i]))
-//@   ensures no_alias [C19]: err == nil ==> fresh(m.Headers.RawProtected) && fresh(m.Headers.RawUnprotected) && (m.Payload != nil ==> fresh(m.Payload)) && fresh(m.Signatures)
+//@   ensures sigs [C01, C05, C09, C11]: err == nil ==> (forall i Int :: 0 <= i && i < len(m.Signatures) ==> m.Signatures[i] != nil && len(m.Signatures[i].Signature) > 0 && fresh(m.Signatures[i]))
+//@   ensures no_alias [C01, C19]: err == nil ==> fresh(m.Headers.RawProtected) && fresh(m.Headers.RawUnprotected) && (m.Payload != nil ==> fresh(m.Payload)) && fresh(m.Signatures)
 //@         && fresh(m.Headers.Protected) && fresh(m.Headers.Unprotected)
-//@   ensures err_frame [C19]: err != nil && m != nil ==> *m == old(*m) && (forall i Int :: 0 <= i && i < old(len(m.Signatures)) ==> m.Signatures[i] == old(m.Signatures[i]))
-//@   modifies frame [C18, C19]: *m
+//@   ensures err_frame [C01, C19]: err != nil && m != nil ==> *m == old(*m) && (forall i Int :: 0 <= i && i < old(len(m.Signatures)) ==> m.Signatures[i] == old(m.Signatures[i]))
+//@   modifies frame [C01, C18, C19]: *m
 //@   loop 1 invariant bounds: 0 <= idx && idx <= len(raw.Signatures) && len(signatures) == idx && cap(signatures) >= len(raw.Signatures) && fresh(signatures)
-//@   loop 1 invariant prefix [C11]: forall j Int :: 0 <= j && j < idx ==> signatures[j] != nil && len(signatures[j].Signature) > 0 && fresh(signatures[j])
-//@   loop 1 invariant dst_kept [C19]: *m == old(*m)
+//@   loop 1 invariant prefix [C01, C11]: forall j Int :: 0 <= j && j < idx ==> signatures[j] != nil && len(signatures[j].Signature) > 0 && fresh(signatures[j])
+//@   loop 1 invariant dst_kept [C01, C19]: *m == old(*m)
 //@   loop 1 invariant locals_kept: raw == entry(raw) && (forall j Int :: 0 <= j && j < len(raw.Signatures) ==> raw.Signatures[j] == entry(raw.Signatures[j]))
 
 // ===================================================================
@@ -788,36 +788,36 @@ package cose
 
 //@ func (*UntaggedSign1Message).Sign
 //@   requires signer_nonnil: signer != nil
-//@   ensures once [C20]: epoch() == old(epoch()) || epoch() == old(epoch()) + 1
-//@   ensures ok [C01, C02, C20]: err == nil ==> m != nil && epoch() == old(epoch()) + 1 && old(m.Payload) != nil
+//@   ensures once [C04, C20]: epoch() == old(epoch()) || epoch() == old(epoch()) + 1
+//@   ensures ok [C01, C02, C04, C20]: err == nil ==> m != nil && epoch() == old(epoch()) + 1 && old(m.Payload) != nil
 //@         && bytes(m.Signature) == signer_sign_bytes(signer, rand, Sig1(ProtBytes(m.Headers), external, m.Payload), old(epoch()))
-//@   ensures err_slot [C20]: m != nil && err != nil ==> m.Signature == old(m.Signature)
-//@   ensures verbatim [C02, C20]: epoch() == old(epoch()) + 1 ==> m != nil
+//@   ensures err_slot [C04, C20]: m != nil && err != nil ==> m.Signature == old(m.Signature)
+//@   ensures verbatim [C02, C04, C20]: epoch() == old(epoch()) + 1 ==> m != nil
 //@         && err == signer_sign_err(signer, rand, Sig1(ProtBytes(m.Headers), external, m.Payload), old(epoch()))
-//@   modifies frame [C18]: m.Signature, m.Headers.Protected, mapof(asmap(m.Headers.Protected))
+//@   modifies frame [C04, C18]: m.Signature, m.Headers.Protected, mapof(asmap(m.Headers.Protected))
 
 //@ func (*UntaggedSign1Message).Verify
 //@   requires verifier_nonnil: verifier != nil
-//@   ensures once [C03, C20]: vepoch() == old(vepoch()) || vepoch() == old(vepoch()) + 1
-//@   ensures sound [C03, C20]: result == nil ==> m != nil && m.Payload != nil && len(m.Signature) > 0 && vepoch() == old(vepoch()) + 1
-//@   ensures verbatim [C02, C03, C20]: vepoch() == old(vepoch()) + 1 ==> m != nil
+//@   ensures once [C01, C03, C04, C20]: vepoch() == old(vepoch()) || vepoch() == old(vepoch()) + 1
+//@   ensures sound [C01, C03, C04, C20]: result == nil ==> m != nil && m.Payload != nil && len(m.Signature) > 0 && vepoch() == old(vepoch()) + 1
+//@   ensures verbatim [C01, C02, C03, C04, C20]: vepoch() == old(vepoch()) + 1 ==> m != nil
 //@         && result == verifier_verify(verifier, old(Sig1(ProtBytes(m.Headers), external, m.Payload)), old(bytes(m.Signature)))
-//@   modifies frame [C18]: nothing
+//@   modifies frame [C01, C04, C18]: nothing
 
 //@ func Sign1
 //@   requires signer_nonnil: signer != nil
-//@   ensures err_no_bytes [C20]: err != nil ==> result == nil
-//@   ensures ok_nonempty [C08, C20]: err == nil ==> len(result) > 0 && fresh(result) && epoch() == old(epoch()) + 1
-//@   ensures signer_err [C20]: epoch() == old(epoch()) + 1 && err == nil ==> true
-//@   ensures once [C20]: epoch() == old(epoch()) || epoch() == old(epoch()) + 1
-//@   modifies frame [C12, C18]: mapof(asmap(headers.Protected))
+//@   ensures err_no_bytes [C01, C02, C04, C20]: err != nil ==> result == nil
+//@   ensures ok_nonempty [C01, C02, C04, C08, C20]: err == nil ==> len(result) > 0 && fresh(result) && epoch() == old(epoch()) + 1
+//@   ensures signer_err [C01, C02, C04, C20]: epoch() == old(epoch()) + 1 && err == nil ==> true
+//@   ensures once [C01, C02, C04, C20]: epoch() == old(epoch()) || epoch() == old(epoch()) + 1
+//@   modifies frame [C01, C02, C04, C12, C18]: mapof(asmap(headers.Protected))
 
 //@ func Sign1Untagged
 //@   requires signer_nonnil: signer != nil
-//@   ensures err_no_bytes [C20]: err != nil ==> result == nil
-//@   ensures ok_nonempty [C08, C20]: err == nil ==> len(result) > 0 && fresh(result) && epoch() == old(epoch()) + 1
-//@   ensures once [C20]: epoch() == old(epoch()) || epoch() == old(epoch()) + 1
-//@   modifies frame [C18]: mapof(asmap(headers.Protected))
+//@   ensures err_no_bytes [C01, C02, C04, C20]: err != nil ==> result == nil
+//@   ensures ok_nonempty [C01, C02, C04, C08, C20]: err == nil ==> len(result) > 0 && fresh(result) && epoch() == old(epoch()) + 1
+//@   ensures once [C01, C02, C04, C20]: epoch() == old(epoch()) || epoch() == old(epoch()) + 1
+//@   modifies frame [C01, C02, C04, C18]: mapof(asmap(headers.Protected))
 
 // ===================================================================
 // countersign.go  (C10, C01, C02, C20)
@@ -871,13 +871,13 @@ package cose
 
 //@ func (*Countersignature).Verify
 //@   requires ok: verifier != nil && parentOK(parent)
-//@   ensures once [C03, C04, C10, C20]: vepoch() == old(vepoch()) || vepoch() == old(vepoch()) + 1
-//@   ensures sound [C03, C10, C20]: result == nil ==> s != nil && len(s.Signature) > 0 && isParent(parent) && vepoch() == old(vepoch()) + 1
-//@   ensures verbatim [C03, C10, C20]: vepoch() == old(vepoch()) + 1 ==> s != nil && isParent(parent)
+//@   ensures once [C01, C03, C04, C10, C20]: vepoch() == old(vepoch()) || vepoch() == old(vepoch()) + 1
+//@   ensures sound [C01, C03, C10, C20]: result == nil ==> s != nil && len(s.Signature) > 0 && isParent(parent) && vepoch() == old(vepoch()) + 1
+//@   ensures verbatim [C01, C03, C10, C20]: vepoch() == old(vepoch()) + 1 ==> s != nil && isParent(parent)
 //@         && result == verifier_verify(verifier, old(tbsFor(false, parent, ProtBytes(s.Headers), external)), old(bytes(s.Signature)))
-//@   ensures gate [C04]: s != nil && vepoch() != old(vepoch()) ==> (algPresent(s.Headers.Protected) ==> algAgrees(s.Headers.Protected, verifier_alg(verifier))) && (algPresent(s.Headers.Protected) || len(external) > 0)
-//@   ensures precheck [C03, C10]: (s == nil || len(s.Signature) == 0 || !isParent(parent)) ==> result != nil && vepoch() == old(vepoch())
-//@   modifies frame [C18]: nothing
+//@   ensures gate [C01, C04]: s != nil && vepoch() != old(vepoch()) ==> (algPresent(s.Headers.Protected) ==> algAgrees(s.Headers.Protected, verifier_alg(verifier))) && (algPresent(s.Headers.Protected) || len(external) > 0)
+//@   ensures precheck [C01, C03, C10]: (s == nil || len(s.Signature) == 0 || !isParent(parent)) ==> result != nil && vepoch() == old(vepoch())
+//@   modifies frame [C01, C18]: nothing
 
 //@ func (*Countersignature).Sign
 //@   requires ok: signer != nil && parentOK(parent)
@@ -893,22 +893,22 @@ package cose
 
 //@ func Countersign0
 //@   requires ok: signer != nil && parentOK(parent)
-//@   ensures once [C10, C20]: epoch() == old(epoch()) || epoch() == old(epoch()) + 1
-//@   ensures fun [C10, C20]: epoch() == old(epoch()) + 1 ==> isParent(parent)
+//@   ensures once [C01, C10, C20]: epoch() == old(epoch()) || epoch() == old(epoch()) + 1
+//@   ensures fun [C01, C10, C20]: epoch() == old(epoch()) + 1 ==> isParent(parent)
 //@         && err == signer_sign_err(signer, rand, old(tbsFor(true, parent, byte1(64), external)), old(epoch()))
-//@   ensures ok_bytes [C10]: err == nil ==> epoch() == old(epoch()) + 1 && bytes(result) == signer_sign_bytes(signer, rand, old(tbsFor(true, parent, byte1(64), external)), old(epoch()))
-//@   ensures err_no_bytes [C20]: err != nil ==> result == nil
-//@   ensures refuse [C10]: !isParent(parent) ==> err != nil && epoch() == old(epoch())
-//@   modifies frame [C18]: nothing
+//@   ensures ok_bytes [C01, C10]: err == nil ==> epoch() == old(epoch()) + 1 && bytes(result) == signer_sign_bytes(signer, rand, old(tbsFor(true, parent, byte1(64), external)), old(epoch()))
+//@   ensures err_no_bytes [C01, C20]: err != nil ==> result == nil
+//@   ensures refuse [C01, C10]: !isParent(parent) ==> err != nil && epoch() == old(epoch())
+//@   modifies frame [C01, C18]: nothing
 
 //@ func VerifyCountersign0
 //@   requires ok: verifier != nil && parentOK(parent)
-//@   ensures once [C03, C10, C20]: vepoch() == old(vepoch()) || vepoch() == old(vepoch()) + 1
-//@   ensures sound [C03, C10, C20]: result == nil ==> isParent(parent) && vepoch() == old(vepoch()) + 1
-//@   ensures verbatim [C03, C10, C20]: vepoch() == old(vepoch()) + 1 ==> isParent(parent)
+//@   ensures once [C01, C03, C10, C20]: vepoch() == old(vepoch()) || vepoch() == old(vepoch()) + 1
+//@   ensures sound [C01, C03, C10, C20]: result == nil ==> isParent(parent) && vepoch() == old(vepoch()) + 1
+//@   ensures verbatim [C01, C03, C10, C20]: vepoch() == old(vepoch()) + 1 ==> isParent(parent)
 //@         && result == verifier_verify(verifier, old(tbsFor(true, parent, byte1(64), external)), old(bytes(signature)))
-//@   ensures refuse [C10]: !isParent(parent) ==> result != nil && vepoch() == old(vepoch())
-//@   modifies frame [C18]: nothing
+//@   ensures refuse [C01, C10]: !isParent(parent) ==> result != nil && vepoch() == old(vepoch())
+//@   modifies frame [C01, C18]: nothing
 
 // ===================================================================
 // hash_envelope.go  (C12)
@@ -954,29 +954,29 @@ package cose
 
 //@ func SignHashEnvelope
 //@   requires signer_nonnil: signer != nil
-//@   ensures err_no_bytes [C12, C20]: err != nil ==> result == nil
-//@   ensures ok [C12, C20]: err == nil ==> len(result) > 0 && fresh(result) && epoch() == old(epoch()) + 1
+//@   ensures err_no_bytes [C01, C04, C08, C12, C20]: err != nil ==> result == nil
+//@   ensures ok [C01, C04, C08, C12, C20]: err == nil ==> len(result) > 0 && fresh(result) && epoch() == old(epoch()) + 1
 //@         && hashLenOK(payload.HashAlgorithm, len(payload.HashValue))
 //@         && (forall k any :: k in asmap(headers.Unprotected) ==> labelOK(k) && (isIntKey(k) ==> envUnprotRule(intOf(k))))
 //@         && (forall k any :: k in asmap(headers.Protected) && isIntKey(k) ==> intOf(k) != 3)
-//@   ensures once [C20]: epoch() == old(epoch()) || epoch() == old(epoch()) + 1
-//@   modifies frame [C12, C18]: nothing
-//@   callsite emitted_headers [C12] Sign1#1: arg2.RawProtected == nil && len(arg2.RawUnprotected) == 0 && arg2.Unprotected == headers.Unprotected
+//@   ensures once [C01, C04, C08, C20]: epoch() == old(epoch()) || epoch() == old(epoch()) + 1
+//@   modifies frame [C01, C04, C08, C12, C18]: nothing
+//@   callsite emitted_headers [C01, C04, C08, C12] Sign1#1: arg2.RawProtected == nil && len(arg2.RawUnprotected) == 0 && arg2.Unprotected == headers.Unprotected
 //@         && EnvRules(arg2.Protected, arg2.Unprotected) && fresh(arg2.Protected)
 //@         && asmap(arg2.Protected)[int64(258)] == Algorithm(payload.HashAlgorithm) && arg3 == payload.HashValue && arg4 == nil
 
 //@ func VerifyHashEnvelope
 //@   requires verifier_nonnil: verifier != nil
-//@   ensures ok [C12]: err == nil ==> result != nil && fresh(result) && len(envelope) >= 2 && bat(bytes(envelope), 0) == 210
+//@   ensures ok [C01, C03, C04, C12]: err == nil ==> result != nil && fresh(result) && len(envelope) >= 2 && bat(bytes(envelope), 0) == 210
 //@         && len(result.Signature) > 0 && result.Payload != nil
 //@         && EnvRules(result.Headers.Protected, result.Headers.Unprotected)
 //@         && vepoch() == old(vepoch()) + 1
 //@         && verifier_verify(verifier, Sig1(ProtBytes(result.Headers), nil, result.Payload), bytes(result.Signature)) == nil
 //@         && asmap(result.Headers.Protected)[int64(258)] is Algorithm
 //@         && hashLenOK(asmap(result.Headers.Protected)[int64(258)].(Algorithm), len(result.Payload))
-//@   ensures err_nil [C12, C20]: err != nil ==> result == nil
-//@   ensures once [C12, C20]: vepoch() == old(vepoch()) || vepoch() == old(vepoch()) + 1
-//@   modifies frame [C18]: nothing
+//@   ensures err_nil [C01, C03, C04, C12, C20]: err != nil ==> result == nil
+//@   ensures once [C01, C03, C04, C12, C20]: vepoch() == old(vepoch()) || vepoch() == old(vepoch()) + 1
+//@   modifies frame [C01, C03, C04, C18]: nothing
 
 // ===================================================================
 // key.go: typed accessors  (C06, C14, C15)
@@ -1110,27 +1110,27 @@ package cose
 
 //@ func (*Key).Signer
 //@   requires nonnil: k != nil
-//@   ensures ok [C06, C14, C15]: result1 == nil ==> result0 != nil && (k.Ops == nil || (exists i Int :: 0 <= i && i < len(k.Ops) && k.Ops[i] == 1))
+//@   ensures ok [C01, C06, C14, C15]: result1 == nil ==> result0 != nil && (k.Ops == nil || (exists i Int :: 0 <= i && i < len(k.Ops) && k.Ops[i] == 1))
 //@         && len(pBytes(k.Params, -4)) > 0 && (k.Type == 2 || k.Type == 1) && algOfCurve(k.Type, pCurve(k.Params)) != 0
 //@         && (k.Algorithm == 0 || k.Algorithm == algOfCurve(k.Type, pCurve(k.Params)))
 //@         && (k.Type == 2 ==> result0 is *ecdsaKeySigner && result0.(*ecdsaKeySigner) != nil && result0.(*ecdsaKeySigner).alg == algOfCurve(k.Type, pCurve(k.Params))
 //@               && result0.(*ecdsaKeySigner).key != nil && result0.(*ecdsaKeySigner).key.PublicKey.Curve != nil)
 //@         && (k.Type == 1 ==> result0 is *ed25519Signer && result0.(*ed25519Signer) != nil && result0.(*ed25519Signer).key != nil)
-//@   ensures refused [C15]: (k.Ops != nil && !(exists i Int :: 0 <= i && i < len(k.Ops) && k.Ops[i] == 1)) ==> result1 == ErrOpNotSupported
+//@   ensures refused [C01, C15]: (k.Ops != nil && !(exists i Int :: 0 <= i && i < len(k.Ops) && k.Ops[i] == 1)) ==> result1 == ErrOpNotSupported
 //@   ensures err_nil: result1 != nil ==> result0 == nil
-//@   modifies frame [C18]: nothing
+//@   modifies frame [C01, C18]: nothing
 
 //@ func (*Key).Verifier
 //@   requires nonnil: k != nil
-//@   ensures ok [C06, C14, C15]: result1 == nil ==> result0 != nil && (k.Ops == nil || (exists i Int :: 0 <= i && i < len(k.Ops) && k.Ops[i] == 2))
+//@   ensures ok [C01, C06, C14, C15]: result1 == nil ==> result0 != nil && (k.Ops == nil || (exists i Int :: 0 <= i && i < len(k.Ops) && k.Ops[i] == 2))
 //@         && len(pBytes(k.Params, -2)) > 0 && (k.Type == 2 || k.Type == 1) && algOfCurve(k.Type, pCurve(k.Params)) != 0
 //@         && (k.Algorithm == 0 || k.Algorithm == algOfCurve(k.Type, pCurve(k.Params)))
 //@         && (k.Type == 2 ==> len(pBytes(k.Params, -3)) > 0 && result0 is *ecdsaVerifier && result0.(*ecdsaVerifier) != nil && result0.(*ecdsaVerifier).alg == algOfCurve(k.Type, pCurve(k.Params))
 //@               && result0.(*ecdsaVerifier).key != nil && result0.(*ecdsaVerifier).key.Curve != nil)
 //@         && (k.Type == 1 ==> result0 is *ed25519Verifier && result0.(*ed25519Verifier) != nil && len(result0.(*ed25519Verifier).key) == 32)
-//@   ensures refused [C15]: (k.Ops != nil && !(exists i Int :: 0 <= i && i < len(k.Ops) && k.Ops[i] == 2)) ==> result1 == ErrOpNotSupported
+//@   ensures refused [C01, C15]: (k.Ops != nil && !(exists i Int :: 0 <= i && i < len(k.Ops) && k.Ops[i] == 2)) ==> result1 == ErrOpNotSupported
 //@   ensures err_nil: result1 != nil ==> result0 == nil
-//@   modifies frame [C18]: nothing
+//@   modifies frame [C01, C18]: nothing
 
 //@ func NewKeyOKP
 //@   ensures ok [C14]: result1 == nil ==> result0 != nil && fresh(result0) && alg == -8 && result0.Type == 1 && result0.Algorithm == alg
@@ -1205,16 +1205,16 @@ package cose
 
 //@ func (*Key).UnmarshalCBOR
 //@   requires nonnil: k != nil
-//@   ensures accept [C06, C15]: err == nil ==> k.Type != 0 && keyShapeOK(k.Type, k.Params, k.Algorithm)
+//@   ensures accept [C06, C14, C15]: err == nil ==> k.Type != 0 && keyShapeOK(k.Type, k.Params, k.Algorithm)
 //@         && dec_shape_err(decMode, bytes(data), "map[any]any") == nil
 //@         && int64(1) in dec_map_dom(decMode, bytes(data)) && any_canint(dec_map_val(decMode, bytes(data))[int64(1)]) && k.Type == any_intval(dec_map_val(decMode, bytes(data))[int64(1)])
-//@   ensures labels [C15]: err == nil ==> (forall q any :: q in k.Params ==> (q is int64 || q is string) && q != int64(1) && q != int64(2) && q != int64(3) && q != int64(4) && q != int64(5))
-//@   ensures ops [C15]: err == nil ==> (k.Ops == nil <==> !(int64(4) in dec_map_dom(decMode, bytes(data))))
-//@   modifies frame [C18]: *k
+//@   ensures labels [C14, C15]: err == nil ==> (forall q any :: q in k.Params ==> (q is int64 || q is string) && q != int64(1) && q != int64(2) && q != int64(3) && q != int64(4) && q != int64(5))
+//@   ensures ops [C14, C15]: err == nil ==> (k.Ops == nil <==> !(int64(4) in dec_map_dom(decMode, bytes(data))))
+//@   modifies frame [C14, C18]: *k
 //@   loop 1 invariant ops_bounds: 0 <= idx && idx <= len(key_ops) && len(k.Ops) == len(key_ops) && fresh(k.Ops) && k.Ops != nil && len(key_ops) > 0
 //@   loop 1 invariant ops_kept: key_ops == entry(key_ops) && k.Type == entry(k.Type) && k.ID == entry(k.ID) && k.Algorithm == entry(k.Algorithm)
-//@   loop 2 invariant params_labels [C15]: k.Params != nil && fresh(k.Params) && (forall q any :: q in k.Params ==> (q is int64 || q is string) && q in ranged)
-//@   loop 2 invariant params_copied [C15]: forall q any :: q in seen ==> q in k.Params && ((q is int64 && q.(int64) == -1 && (k.Type == 2 || k.Type == 1)) ? (k.Params[q] is Curve && ranged[q] is int64 && k.Params[q].(Curve) == ranged[q].(int64)) : k.Params[q] == ranged[q])
+//@   loop 2 invariant params_labels [C14, C15]: k.Params != nil && fresh(k.Params) && (forall q any :: q in k.Params ==> (q is int64 || q is string) && q in ranged)
+//@   loop 2 invariant params_copied [C14, C15]: forall q any :: q in seen ==> q in k.Params && ((q is int64 && q.(int64) == -1 && (k.Type == 2 || k.Type == 1)) ? (k.Params[q] is Curve && ranged[q] is int64 && k.Params[q].(Curve) == ranged[q].(int64)) : k.Params[q] == ranged[q])
 //@   loop 2 invariant tmp_kept: mapdom(ranged) == entry(mapdom(ranged)) && mapval(ranged) == entry(mapval(ranged)) && ranged != k.Params
 //@   loop 2 invariant fields_kept: k.Type == entry(k.Type) && k.ID == entry(k.ID) && k.Algorithm == entry(k.Algorithm) && k.Ops == entry(k.Ops) && k.BaseIV == entry(k.BaseIV) && k.Params == entry(k.Params)
 
